@@ -19,6 +19,9 @@ import threading
 
 from vf import asanproc
 
+KNOWN_FD = 'C19:mjd_stepFD-autoreset-inside-open-stack-frame'
+
+
 def main(ck):
   ck.rule = ('seq: Hypothesis op lists (4-40 ops) x memory 1.2K-50K x alignments 2^0..2^8 on both build variants; '
              'non-trivial = (>=3 nested frames and >=1 allocation that fails) or a concurrent batch served by >=2 '
@@ -30,7 +33,7 @@ def main(ck):
       '(rendezvous barrier inside the task function), not an exhaustive schedule enumeration',
       'arena alignments are limited to <= 64 (the documented alignment of the arena base)',
       '"no spurious exhaustion" allows 64 bytes of red-zone bookkeeping per stack block in the ASan build']
-  nseq_rel, nseq_asan, npipe = ck.budget(750, 40000), ck.budget(300, 12000), ck.budget(24, 480)
+  nseq_rel, nseq_asan, npipe = ck.budget(750, 40000), ck.budget(300, 6000), ck.budget(24, 480)
   shards = 3 if ck.quick else 14
   jobs_rel, jobs_asan = [], []
   for s in range(shards):
@@ -68,10 +71,14 @@ def main(ck):
         ck.discard('shard aborted: ASan-build compile loop (instrumentation artefact)')
         ck.extra['asan_compile_loop_model'] = ((res.get('journal') or {}).get('xml') or '')[:2000]
       else:
+        fp = None
+        if job['family'] == 'pipe' and 'mjd_stepFD' in (res['report'] or '') and res['kind'] == 'use-after-poison':
+          fp = KNOWN_FD
+          ck.case(nontrivial=True, key=('pipe-fd-crash', job['variant'], job['shard']), labels=['pipe:fd-reset-inside-frame'])
         ck.violation('worker process died (%s, rc=%s) in %s @ %s\n%s' % (
             res['kind'], res['rc'], job['family'], res['frame'], (res['report'] or res['stderr'])[:3000]),
             dict(job=job, journal=res.get('journal'), report=res['report'][:6000]),
-            bucket='%s:%s:%s' % (job['family'], res['kind'], res['frame']))
+            bucket='%s:%s:%s' % (job['family'], res['kind'], res['frame']), fingerprint=fp)
 
 
 LEVEL = 'exploration'
